@@ -513,7 +513,8 @@ func (rp *replayer) build(rel string) (string, error) {
 	if b, ok := rp.bins[rel]; ok {
 		return b, nil
 	}
-	ov := map[string]string{filepath.Join(sym.RepoDir, "go/internal/vh/vh.go"): filepath.Join(sym.HarnessDir, "vh/vh.go")}
+	ov := map[string]string{filepath.Join(sym.RepoDir, "go/internal/vh/vh.go"): filepath.Join(sym.HarnessDir, "vh/vh.go"),
+		filepath.Join(sym.RepoDir, "go/internal/vhc/vhc.go"): filepath.Join(sym.HarnessDir, "vhc/vhc.go")}
 	pkgName := ""
 	for _, f := range rp.files {
 		ov[f.Virtual] = f.Src
